@@ -53,7 +53,11 @@ Eol(c) == LET k == c % 8 IN
   ELSE IF k = 3 THEN <<" ", " ", "\n">>
   ELSE IF k = 4 THEN <<"\n", " ", " ", "#", " ", "c", "\n">>
   ELSE IF k = 5 THEN <<" ", "#", "\n", "\n">>
+  ELSE IF k = 6 THEN <<"\t", "#", " ", "c", "\n">>          \* a tab separates the comment
+  ELSE IF k = 7 THEN <<" ", "\t", "\n">>                     \* trailing blanks with a tab
   ELSE <<"\n">>
+
+EolT(c, tabok) == IF tabok \/ (c % 8) \notin {6, 7} THEN Eol(c) ELSE <<"\n">>
 
 \* ---- node properties: 0 none, 1 anchor, 2 tag !t, 3 tag !!str, 4 anchor then tag, 5 tag then anchor ----
 \* returns [txt (with a trailing space), aid, tag, st]
@@ -104,7 +108,7 @@ MultiLeaf(t, st, n) ==
   IN R(<<" ">> \o pr.txt \o pres \o Eol(Cell(t, i + 4)), <<E("Scalar", tg, style, pr.aid, pr.tag)>>, Done(Adv(pr.st, 5), pr.aid))
 
 RECURSIVE FlowNode(_, _, _, _), FlowSeqItems(_, _, _, _, _, _), FlowMapItems(_, _, _, _, _, _),
-          BlockSeq(_, _, _, _, _, _), BlockMap(_, _, _, _, _, _), AfterDash(_, _, _, _), AfterColon(_, _, _, _), KeyNode(_, _, _, _)
+          BlockSeq(_, _, _, _, _, _), BlockMap(_, _, _, _, _, _), AfterDash(_, _, _, _, _), AfterColon(_, _, _, _), KeyNode(_, _, _, _, _), Pair(_, _, _, _, _)
 
 \* a scalar or alias on the current line (no props): returns R
 Leaf(t, st) ==
@@ -122,19 +126,20 @@ PScalar(t, st) ==
 
 \* ---- flow collections. `n` = indentation of the enclosing block (continuation lines need > n);
 \*      `ml` = may break lines; separators inside flow are spaces, or a break plus n+1.. spaces ----
+NoML == -100      \* as `n`: the flow node must stay on one line (it is an implicit key)
 FSep(t, i, n, ml) == IF ml /\ (Cell(t, i) % 4) = 3 THEN <<"\n">> \o Spaces(n + 1 + ((Cell(t, i) \div 4) % 3)) ELSE IF (Cell(t, i) % 2) = 1 THEN <<" ">> ELSE <<>>
 FlowNode(t, st, n, d) ==
   LET c == (Cell(t, st.i) % 8) IN
   IF d > 0 /\ c = 6
   THEN LET pr == Props(t, Adv(st, 1), TRUE)
            cnt == (Cell(t, pr.st.i) % 4)
-           ml == (Cell(t, pr.st.i + 1) % 2) = 1
+           ml == n # NoML /\ (Cell(t, pr.st.i + 1) % 2) = 1
            r == FlowSeqItems(t, Adv(pr.st, 2), n, d - 1, cnt, ml)
        IN R(pr.txt \o <<"[">> \o r.txt \o <<"]">>, <<E("SequenceStart", <<>>, "", pr.aid, pr.tag)>> \o r.evs \o <<E0("SequenceEnd")>>, Done(StOf(r), pr.aid))
   ELSE IF d > 0 /\ c = 7
   THEN LET pr == Props(t, Adv(st, 1), TRUE)
            cnt == (Cell(t, pr.st.i) % 4)
-           ml == (Cell(t, pr.st.i + 1) % 2) = 1
+           ml == n # NoML /\ (Cell(t, pr.st.i + 1) % 2) = 1
            r == FlowMapItems(t, Adv(pr.st, 2), n, d - 1, cnt, ml)
        IN R(pr.txt \o <<"{">> \o r.txt \o <<"}">>, <<E("MappingStart", <<>>, "", pr.aid, pr.tag)>> \o r.evs \o <<E0("MappingEnd")>>, Done(StOf(r), pr.aid))
   ELSE IF c = 5 THEN Leaf(t, Adv(st, 1))
@@ -190,11 +195,16 @@ FlowMapItems(t, st, n, d, cnt, ml) ==
        IN R(lead \o item.txt \o trail \o sep \o rest.txt, item.evs \o rest.evs, StOf(rest))
 
 \* ---- block collections ----
+\* separation between an indicator ("-", "?", ":") and a node on the same line: blanks, tabs included
+SepT(c) == LET k == c % 4 IN IF k = 1 THEN <<" ", " ">> ELSE IF k = 2 THEN <<"\t">> ELSE IF k = 3 THEN <<" ", "\t">> ELSE <<" ">>
 \* what follows "-" (cursor right after the dash, entries of this sequence are at column n)
-AfterDash(t, st, n, d) ==
-  LET c == (Cell(t, st.i) % 16)  st1 == Adv(st, 1)  sp == Spaces(1 + ((Cell(t, st.i) \div 16) % 2)) IN
+\* tabok: a tab may separate the indicator ("-" or "?") from a node on the same line and may precede a comment / the line
+\* break after it (both callers pass TRUE since fix 42d18a3 made saphyr accept "?<TAB>k")
+AfterDash(t, st, n, d, tabok) ==
+  LET c == (Cell(t, st.i) % 16)  st1 == Adv(st, 1)  sp == Spaces(1 + ((Cell(t, st.i) \div 16) % 2))
+      spT == IF tabok THEN SepT(Cell(t, st.i) \div 16) ELSE sp IN
   IF d = 0 \/ c \in {0, 1, 2}       \* scalar (with properties) or alias on the same line
-  THEN LET r == IF c = 2 THEN Leaf(t, st1) ELSE PScalar(t, st1) IN R(sp \o r.txt \o Eol(Cell(t, r.i)), r.evs, Adv(StOf(r), 1))
+  THEN LET r == IF c = 2 THEN Leaf(t, st1) ELSE PScalar(t, st1) IN R(spT \o r.txt \o Eol(Cell(t, r.i)), r.evs, Adv(StOf(r), 1))
   ELSE IF c = 3                      \* compact nested sequence  "- - a"
   THEN LET r == BlockSeq(t, st1, n + 1 + Len(sp), TRUE, d - 1, <<>>) IN R(sp \o r.txt, r.evs, StOf(r))
   ELSE IF c = 4                      \* compact nested mapping   "- k: v"
@@ -205,11 +215,11 @@ AfterDash(t, st, n, d) ==
            head == IF pr.txt = <<>> THEN <<>> ELSE <<" ">> \o SubSeq(pr.txt, 1, Len(pr.txt) - 1)
            r == IF c = 5 THEN BlockSeq(t, Adv(pr.st, 2), m, FALSE, d - 1, [aid |-> pr.aid, tag |-> pr.tag])
                 ELSE BlockMap(t, Adv(pr.st, 2), m, FALSE, d - 1, [aid |-> pr.aid, tag |-> pr.tag])
-       IN R(head \o Eol(Cell(t, pr.st.i + 1)) \o r.txt, r.evs, Done(StOf(r), pr.aid))
+       IN R(head \o EolT(Cell(t, pr.st.i + 1), tabok \/ head # <<>>) \o r.txt, r.evs, Done(StOf(r), pr.aid))
   ELSE IF c \in {7, 8}               \* flow collection
-  THEN LET r == FlowNode(t, st1, n, 2) IN R(sp \o r.txt \o Eol(Cell(t, r.i)), r.evs, Adv(StOf(r), 1))
+  THEN LET r == FlowNode(t, st1, n, 2) IN R(spT \o r.txt \o Eol(Cell(t, r.i)), r.evs, Adv(StOf(r), 1))
   ELSE IF c = 9                      \* empty entry
-  THEN R(Eol(Cell(t, st1.i)), <<Null>>, Adv(st1, 1))
+  THEN R(EolT(Cell(t, st1.i), tabok), <<Null>>, Adv(st1, 1))
   ELSE IF c = 10                     \* properties only: an empty node that carries them
   THEN LET pr == Props(t, st1, TRUE) IN
        IF pr.txt = <<>> THEN R(Eol(0), <<Null>>, pr.st)
@@ -222,7 +232,7 @@ AfterDash(t, st, n, d) ==
 
 \* what follows "key:" (entries of this mapping are at column n)
 AfterColon(t, st, n, d) ==
-  LET c == (Cell(t, st.i) % 16)  st1 == Adv(st, 1)  sp == Spaces(1 + ((Cell(t, st.i) \div 16) % 2)) IN
+  LET c == (Cell(t, st.i) % 16)  st1 == Adv(st, 1)  sp == SepT(Cell(t, st.i) \div 16) IN
   IF d = 0 \/ c \in {0, 1, 2, 3}
   THEN LET r == IF c = 2 THEN Leaf(t, st1) ELSE PScalar(t, st1) IN R(sp \o r.txt \o Eol(Cell(t, r.i)), r.evs, Adv(StOf(r), 1))
   ELSE IF c \in {4, 5}               \* block sequence on the following lines; it may sit at the key's own indentation
@@ -253,11 +263,11 @@ AfterColon(t, st, n, d) ==
 \* (the cursor already is at column n); `props` = <<>> or the properties that were written before it
 BlockSeq(t, st, n, inl, d, props) ==
   LET cnt == 1 + (Cell(t, st.i) % 3)
-      e1 == AfterDash(t, Adv(st, 1), n, d)
+      e1 == AfterDash(t, Adv(st, 1), n, d, TRUE)
       p1 == (IF inl THEN <<>> ELSE Spaces(n)) \o <<"-">> \o e1.txt
-      e2 == IF cnt >= 2 THEN AfterDash(t, StOf(e1), n, d) ELSE R(<<>>, <<>>, StOf(e1))
+      e2 == IF cnt >= 2 THEN AfterDash(t, StOf(e1), n, d, TRUE) ELSE R(<<>>, <<>>, StOf(e1))
       p2 == IF cnt >= 2 THEN Spaces(n) \o <<"-">> \o e2.txt ELSE <<>>
-      e3 == IF cnt >= 3 THEN AfterDash(t, StOf(e2), n, d) ELSE R(<<>>, <<>>, StOf(e2))
+      e3 == IF cnt >= 3 THEN AfterDash(t, StOf(e2), n, d, TRUE) ELSE R(<<>>, <<>>, StOf(e2))
       p3 == IF cnt >= 3 THEN Spaces(n) \o <<"-">> \o e3.txt ELSE <<>>
       aid == IF props = <<>> THEN 0 ELSE props.aid
       tag == IF props = <<>> THEN <<>> ELSE props.tag
@@ -265,31 +275,40 @@ BlockSeq(t, st, n, inl, d, props) ==
 
 \* one key of a block mapping: implicit key (scalar / alias, one line) or explicit "? " key
 \* returns R whose txt is everything up to and including ":" (implicit) or the "? key" line(s) plus ":" line start
-KeyNode(t, st, n, d) ==
+\* noEmpty: the previous pair was an explicit key without a ":" line, so a ":" here would be read as its value
+KeyNode(t, st, n, d, noEmpty) ==
   LET c == (Cell(t, st.i) % 8) IN
   IF c = 7 /\ d > 0     \* explicit key: "? " then a node, then ":" at column n
-  THEN LET k == AfterDash(t, Adv(st, 1), n, d - 1) IN
+  THEN LET k == AfterDash(t, Adv(st, 1), n, d - 1, TRUE) IN
        R(<<"?">> \o k.txt \o Spaces(n) \o <<":">>, k.evs, StOf(k))
-  ELSE IF c = 6         \* empty key ": v"
+  ELSE IF c = 6 /\ ~noEmpty        \* empty key ": v"
   THEN R(<<":">>, <<Null>>, Adv(st, 1))
+  ELSE IF c = 4 /\ d > 0     \* a flow collection (or flow scalar) on one line as implicit key: "[a, b]: v"
+  THEN LET k == FlowNode(t, Adv(st, 1), NoML, 1)
+           gap == IF (Cell(t, k.i) % 4) = 3 \/ k.evs[1].k = "Alias" THEN <<" ">> ELSE <<>>
+       IN R(k.txt \o gap \o <<":">>, k.evs, Adv(StOf(k), 1))
   ELSE LET k == IF c = 5 THEN Leaf(t, Adv(st, 1)) ELSE PScalar(t, Adv(st, 1))
            gap == IF (Cell(t, k.i) % 4) = 3 \/ k.evs[1].k = "Alias" THEN <<" ">> ELSE <<>>
        IN R(k.txt \o gap \o <<":">>, k.evs, Adv(StOf(k), 1))
 
+\* one pair of a block mapping (cursor at column n): "key: value", or an explicit key with no ":" line at all (null value)
+NoValuePair(t, st, d) == (Cell(t, st.i) % 8) = 7 /\ d > 0 /\ (Cell(t, st.i + 1) % 4) = 3
+Pair(t, st, n, d, noEmpty) ==
+  IF NoValuePair(t, st, d)
+  THEN LET k == AfterDash(t, Adv(st, 2), n, d - 1, TRUE) IN R(<<"?">> \o k.txt, k.evs \o <<Null>>, StOf(k))
+  ELSE LET k == KeyNode(t, st, n, d, noEmpty) v == AfterColon(t, StOf(k), n, d) IN R(k.txt \o v.txt, k.evs \o v.evs, StOf(v))
 BlockMap(t, st, n, inl, d, props) ==
   LET cnt == 1 + (Cell(t, st.i) % 3)
-      k1 == KeyNode(t, Adv(st, 1), n, IF inl THEN 0 ELSE d)
-      v1 == AfterColon(t, StOf(k1), n, d)
-      p1 == (IF inl THEN <<>> ELSE Spaces(n)) \o k1.txt \o v1.txt
-      k2 == IF cnt >= 2 THEN KeyNode(t, StOf(v1), n, d) ELSE R(<<>>, <<>>, StOf(v1))
-      v2 == IF cnt >= 2 THEN AfterColon(t, StOf(k2), n, d) ELSE R(<<>>, <<>>, StOf(k2))
-      p2 == IF cnt >= 2 THEN Spaces(n) \o k2.txt \o v2.txt ELSE <<>>
-      k3 == IF cnt >= 3 THEN KeyNode(t, StOf(v2), n, d) ELSE R(<<>>, <<>>, StOf(v2))
-      v3 == IF cnt >= 3 THEN AfterColon(t, StOf(k3), n, d) ELSE R(<<>>, <<>>, StOf(k3))
-      p3 == IF cnt >= 3 THEN Spaces(n) \o k3.txt \o v3.txt ELSE <<>>
+      d1 == IF inl THEN 0 ELSE d
+      e1 == Pair(t, Adv(st, 1), n, d1, FALSE)
+      p1 == (IF inl THEN <<>> ELSE Spaces(n)) \o e1.txt
+      e2 == IF cnt >= 2 THEN Pair(t, StOf(e1), n, d, NoValuePair(t, Adv(st, 1), d1)) ELSE R(<<>>, <<>>, StOf(e1))
+      p2 == IF cnt >= 2 THEN Spaces(n) \o e2.txt ELSE <<>>
+      e3 == IF cnt >= 3 THEN Pair(t, StOf(e2), n, d, cnt >= 2 /\ NoValuePair(t, StOf(e1), d)) ELSE R(<<>>, <<>>, StOf(e2))
+      p3 == IF cnt >= 3 THEN Spaces(n) \o e3.txt ELSE <<>>
       aid == IF props = <<>> THEN 0 ELSE props.aid
       tag == IF props = <<>> THEN <<>> ELSE props.tag
-  IN R(p1 \o p2 \o p3, <<E("MappingStart", <<>>, "", aid, tag)>> \o k1.evs \o v1.evs \o k2.evs \o v2.evs \o k3.evs \o v3.evs \o <<E0("MappingEnd")>>, StOf(v3))
+  IN R(p1 \o p2 \o p3, <<E("MappingStart", <<>>, "", aid, tag)>> \o e1.evs \o e2.evs \o e3.evs \o <<E0("MappingEnd")>>, StOf(e3))
 
 \* ---- documents ----
 \* one document: returns R; `first` = it is the first document of the stream (may be bare)
@@ -304,10 +323,12 @@ Doc(t, st, D, first, prevOpen) ==
               ELSE IF kind = 4 THEN LET f == FlowNode(t, Adv(st1, 1), -1, 2) IN R(f.txt \o Eol(Cell(t, f.i)), f.evs, Adv(StOf(f), 1))
               ELSE IF kind = 5 THEN LET s == PScalar(t, Adv(st1, 1)) IN R(s.txt \o Eol(Cell(t, s.i)), s.evs, Adv(StOf(s), 1))
               ELSE IF kind = 6 /\ explicit THEN R(<<>>, <<Null>>, Adv(st1, 1))     \* "---" with nothing: a null document
+              ELSE IF kind = 7 /\ explicit /\ (Cell(t, st1.i + 1) % 2) = 1 THEN BlockLeaf(t, Adv(st1, 2), 0)     \* "--- |" : a block scalar as the root (content at column >= 1)
               ELSE LET s == Leaf(t, Adv(st1, 1)) IN R(s.txt \o Eol(Cell(t, s.i)), s.evs, Adv(StOf(s), 1))
+      rootBlock == kind = 7 /\ explicit /\ (Cell(t, st1.i + 1) % 2) = 1
       sameLine == explicit /\ kind \in {4, 5, 7} /\ (Cell(t, body.i) % 2) = 1      \* "--- node" on the marker line
       head == (IF yamlDir THEN <<"%", "Y", "A", "M", "L", " ", "1", ".", "2", "\n">> ELSE <<>>)
-              \o (IF explicit THEN <<"-", "-", "-">> \o (IF sameLine THEN <<" ">> ELSE Eol(Cell(t, body.i + 1))) ELSE <<>>)
+              \o (IF explicit THEN <<"-", "-", "-">> \o (IF rootBlock THEN <<>> ELSE IF sameLine THEN <<" ">> ELSE Eol(Cell(t, body.i + 1))) ELSE <<>>)
       endMark == (Cell(t, body.i + 2) % 4) = 3
       tail == IF endMark THEN <<".", ".", ".">> \o Eol(Cell(t, body.i + 3)) ELSE <<>>
   IN [txt |-> head \o body.txt \o tail,
